@@ -11,6 +11,7 @@
 #include <asmjit/a64.h>
 #include "vh.h"
 #include <asmjit/x86/x86compiler.h>
+#include <asmjit/arm/a64compiler.h>
 #include <signal.h>
 #include <string.h>
 #include <unistd.h>
@@ -236,10 +237,113 @@ static std::string iv_op_str(const Operand_& o) {
   return op_str(o);
 }
 
+// ------------------------------------------------------------------------------------------------------------------
+// invoke lowering on AArch64 (a64::Compiler, a64rapass.cpp RACFGBuilder::on_before_invoke / move_imm_to_reg_arg /
+// move_imm_to_stack_arg / move_reg_to_stack_arg); same line format as `iv` with env a64l (AAPCS64) / a64d (Apple arm64).
+// Not executed.  The stack pointer is register id 31.
+// ------------------------------------------------------------------------------------------------------------------
+static std::string do_iv_a64(const std::vector<std::string>& w, const Environment& env, uint64_t ccid, uint64_t flags, uint64_t n) {
+  CodeHolder code;
+  code.init(env);
+  a64::Compiler cc(&code);
+  FuncNode* fn = nullptr;
+  FuncSignature fsig(CallConvId::kCDecl);
+  fsig.set_ret(TypeId::kVoid);
+  Error e = cc.add_func_node(Out<FuncNode*>(fn), fsig);
+  if (e != Error::kOk) return "func-" + err_name(e);
+  cc.emit(a64::Inst::kIdNop);
+  a64::Mem loc;
+  if (flags & 1) {
+    loc = cc.new_stack(16, 16);
+    for (int k = 0; k < 4; k++) {
+      a64::Gp t = cc.new_gp32();
+      cc.emit(a64::Inst::kIdMov, t, Imm(0x5A5A5A50 + k)); cc.cursor()->set_user_data_as_uint64(7);
+      a64::Mem m = loc; m.add_offset(4 * k);
+      cc.emit(a64::Inst::kIdStr, t, m); cc.cursor()->set_user_data_as_uint64(7);
+    }
+  }
+  FuncSignature sig{CallConvId(ccid)};
+  sig.set_ret(TypeId::kVoid);
+  std::vector<Operand> ops;
+  for (uint64_t i = 0; i < n; i++) {
+    const std::string& a = w[5 + i];
+    size_t eq = a.find('=');
+    uint64_t tid;
+    if (eq == std::string::npos || eq + 2 > a.size() || !vh::parse_u64(a.substr(0, eq), tid) || tid > 255) return "bad-op";
+    sig.add_arg(TypeId(tid));
+    char k = a[eq + 1];
+    std::string rest = a.substr(eq + 2);
+    if (k == 'i') {
+      uint64_t v;
+      if (!vh::parse_hex(rest, v)) return "bad-op";
+      ops.push_back(Imm(int64_t(v)));
+    }
+    else if (k == 'r' || k == 'v') {
+      uint64_t st;
+      if (!vh::parse_u64(rest, st) || st > 255) return "bad-op";
+      Reg r;
+      e = cc._new_reg(Out<Reg>(r), TypeId(st), nullptr);
+      if (e != Error::kOk) return "newreg-" + err_name(e);
+      if (k == 'r') {
+        if (!r.is_gp()) return "bad-op";
+        uint64_t val = 0x8877665544332211ull * (i + 1);
+        if (r.size() < 8) val &= 0xFFFFFFFFull;
+        e = cc.emit(a64::Inst::kIdMov, r, Imm(int64_t(val)));
+        cc.cursor()->set_user_data_as_uint64(7);
+      }
+      else {
+        if (!r.is_vec()) return "bad-op";
+        a64::Gp t = cc.new_gp64();
+        cc.emit(a64::Inst::kIdMov, t, Imm(int64_t(0x7E0000000000ull + 64 * i)));
+        cc.cursor()->set_user_data_as_uint64(7);
+        e = cc.emit(a64::Inst::kIdLdr_v, r, a64::ptr(t));
+        cc.cursor()->set_user_data_as_uint64(7);
+      }
+      if (e != Error::kOk) return "init-" + err_name(e);
+      ops.push_back(r);
+    }
+    else return "bad-op";
+  }
+  InvokeNode* inv = nullptr;
+  a64::Gp target = cc.new_gp64();
+  cc.emit(a64::Inst::kIdMov, target, Imm(uint64_t(0x10000))); cc.cursor()->set_user_data_as_uint64(7);
+  e = cc.add_invoke_node(Out<InvokeNode*>(inv), a64::Inst::kIdBlr, target, sig);
+  if (e != Error::kOk) return "invoke-" + err_name(e);
+  for (uint64_t i = 0; i < n; i++) {
+    if (ops[i].is_imm()) inv->set_arg(uint32_t(i), ops[i].as<Imm>()); else inv->set_arg(uint32_t(i), ops[i].as<Reg>());
+  }
+  cc.emit(a64::Inst::kIdNop);
+  if (flags & 1) { a64::Gp t = cc.new_gp32(); cc.emit(a64::Inst::kIdLdr, t, loc); }
+  cc.end_func();
+  e = cc.finalize();
+  if (e != Error::kOk) return "fin-" + err_name(e);
+  const FuncFrame& fr = fn->frame();
+  std::string head = "ok ass=" + std::to_string(inv->detail().arg_stack_size()) + " css=" + std::to_string(fr.call_stack_size()) +
+    " csa=" + std::to_string(fr.call_stack_alignment()) + " lso=" + std::to_string(fr.local_stack_offset()) +
+    " lss=" + std::to_string(fr.local_stack_size()) + " fss=" + std::to_string(fr.final_stack_size()) +
+    " da=" + std::to_string(fr.has_dynamic_alignment() ? 1 : 0);
+  std::string insts;
+  int markers = 0;
+  for (BaseNode* node = cc.first_node(); node && markers < 2; node = node->next()) {
+    if (!node->is_inst() && node->type() != NodeType::kInvoke) continue;
+    InstNode* in = node->as<InstNode>();
+    if (in->inst_id() == a64::Inst::kIdNop) { markers++; continue; }
+    if (!markers) continue;
+    String nm;
+    InstAPI::inst_id_to_string(env.arch(), in->inst_id(), InstStringifyOptions::kNone, nm);
+    if (!insts.empty()) insts += ";";
+    if (in->user_data_as_uint64() == 7) insts += "#";
+    insts += nm.data();
+    for (uint32_t k = 0; k < in->op_count(); k++) insts += " " + iv_op_str(in->op(k));
+  }
+  return head + " | " + insts;
+}
+
 static std::string do_iv(const std::vector<std::string>& w) {
   Environment env; uint64_t ccid, flags, n;
-  if (w.size() < 5 || !parse_env(w[1], env) || !env.is_family_x86() || !vh::parse_u64(w[2], ccid) || !vh::parse_hex(w[3], flags) ||
+  if (w.size() < 5 || !parse_env(w[1], env) || !vh::parse_u64(w[2], ccid) || !vh::parse_hex(w[3], flags) ||
       !vh::parse_u64(w[4], n) || ccid > 255 || n > 32 || w.size() != 5 + n) return "bad-op";
+  if (!env.is_family_x86()) return do_iv_a64(w, env, ccid, flags, n);
   bool is64 = env.is_64bit();
   CodeHolder code;
   code.init(env);
